@@ -17,7 +17,7 @@ deriving Repr
 
 inductive SOp where
   | mut (op : Op)
-  | child
+  | child (d : Decision)  -- child Start; `d` = what the sampler decides for the child
   | isRec
   | other                 -- Tracer() / ForceFlush: no effect on the span
   | reg (p : Nat)
@@ -50,7 +50,7 @@ def fuelFor (s : St) : Nat := 16 + 2 * s.procs.length
 
 def applyOp (c : Cfg) (g : Gates) (s : St) : SOp → St × String
   | .mut op => (tryStep c s (.mut op), "-")
-  | .child => (tryStep c s .addChild, "-")
+  | .child d => (tryStep c s (.addChild d), "-")
   | .isRec => (tryStep c s .access, if s.data.ended then "0" else "1")
   | .other => (tryStep c s .access, "-")
   | .reg p => (tryStep c s (.register p), "-")
